@@ -58,6 +58,12 @@ def gen_cases(seed, tier):
                 if sp_.get("op") == "rotate" and isinstance(sp_.get("around"), dict) and not isinstance(sp_.get("angle"), dict) \
                         and not geo.ref(sp_["d"]).free():
                     break
+        elif i % 25 == 14:
+            # a contained cut whose removed part touches the outer boundary (notch): judged against the polygon the set is
+            sp_, poly_ = gen_geo.notch_cut(rng)
+            kk_ = int(rng.choice([0, 0, 2]))
+            dom = {"spec": sp_, "equiv": poly_, "rows": gen_geo.param_rows(rng, kk_), "k": kk_,
+                   "info": {"kind": "bool", "dim": 2, "dep": False, "relations": ["cut:notch!"], "desc": "(P-P)~notch"}}
         elif i % 25 == 8:
             # operands touching from outside in one point (every seed reaches the contact-point monitor)
             for _ in range(400):
@@ -77,6 +83,8 @@ def gen_cases(seed, tier):
                 dom["info"] = dict(dom["info"], scale=S)
         cases.append({"spec": dom["spec"], "rows": dom["rows"], "info": dom["info"], "k": dom["k"],
                       "seed": int(rng.integers(0, 2 ** 31)), "nq": 300 if tier == "quick" else 600})
+        if dom.get("equiv"):
+            cases[-1]["equiv"] = dom["equiv"]
     return cases
 
 
@@ -155,6 +163,8 @@ def run_case(case):
     info = case["info"]
     res = {"cls": "", "judged": 0, "nontrivial": False, "viol": [], "counters": {}}
     D, node, Pp, env = sampling.build_case(case)
+    if case.get("equiv"):
+        node = geo.ref(case["equiv"])
     rng = np.random.default_rng(case["seed"])
     k = case["k"]
     kk = max(k, 1)
@@ -228,6 +238,11 @@ def run_case(case):
     X = X.astype(np.float32).astype(np.float64)
     f = node.phi(X, envq)
     far = np.abs(f) >= BAND * L
+    if case.get("equiv"):
+        # the library works with the operands: a query within the tolerance band of ANY operand boundary (also the piece
+        # that was cut away) is as undecidable for it as one near the boundary of the set
+        leaves_ = np.abs(np.stack(geo.ref(case["spec"]).leaf_phis(X, envq), 0)).min(0)
+        far &= leaves_ >= BAND * L
     P, Q = _points(names_dims, X, envq, True)
     mech = dict(mech0, target="interior")
     ans = _answer(D, P, Q, res, mech, info["desc"])
@@ -292,7 +307,7 @@ def run_case(case):
     # ---- boundary membership
     if Db is not None and hasattr(Db, "_contains") and bsamples is not None and len(bsamples[0]):
         mech = dict(mech0, target="boundary")
-        bnode = geo.ref({"op": "boundary", "d": case["spec"]})
+        bnode = geo.ref({"op": "boundary", "d": case.get("equiv") or case["spec"]})
         fb = np.abs(f)           # distance-like level of the boundary
         ans = _answer(Db, P, Q, res, mech, "boundary of " + info["desc"])
         if ans is not None:
